@@ -11,6 +11,7 @@
 #include <cstring>
 #include <iomanip>
 #include <limits>
+#include <locale>
 #include <random>
 #include <sstream>
 
@@ -203,6 +204,11 @@ static void emit_case(char const* kind, char const* engine, std::size_t nres, st
 
 template <typename E> static E advanced(E e, rng& g) { e.discard(g.below(1000)); return e; }
 // the stream a checkpoint is written to belongs to the caller: it may carry format flags of its own
+struct grouping_punct : std::numpunct<char>
+{
+    char do_thousands_sep() const override { return '\''; }
+    std::string do_grouping() const override { return "\3"; }
+};
 static void user_flags(std::ostream& o, rng& g)
 {
     switch (g.below(6))
@@ -211,6 +217,9 @@ static void user_flags(std::ostream& o, rng& g)
     case 1: o << std::uppercase << std::showpos; break;
     case 2: o << std::fixed << std::setprecision(2); break;
     case 3: o << std::hexfloat; break;
+    // a locale of the caller's own on this one stream (the global locale stays classic): digits of integers come in groups of three; the
+    // stream the text is read from carries the same locale
+    case 4: o.imbue(std::locale(std::locale::classic(), new grouping_punct)); break;
     default: break;
     }
 }
@@ -227,6 +236,7 @@ static void one_case(rng& g, char const* ename, E const& base, int kind, std::si
         user_flags(o, g);
         c.serialize(o);
         std::istringstream in(o.str());
+        in.imbue(o.getloc());
         auto r = hep::make_plain_chkpt<T, E>(in);
         bool equal = r.results().size() == c.results().size();
         for (std::size_t i = 0; equal && i != nres; ++i) equal = eq_plain(c.results()[i], r.results()[i], why);
@@ -253,6 +263,7 @@ static void one_case(rng& g, char const* ename, E const& base, int kind, std::si
         user_flags(o, g);
         c.serialize(o);
         std::istringstream in(o.str());
+        in.imbue(o.getloc());
         auto r = hep::make_vegas_chkpt<T, E>(in);
         bool equal = r.results().size() == c.results().size() && same_bits(r.alpha(), c.alpha());
         if (!equal) why = "alpha";
@@ -274,6 +285,7 @@ static void one_case(rng& g, char const* ename, E const& base, int kind, std::si
         user_flags(o, g);
         c.serialize(o);
         std::istringstream in(o.str());
+        in.imbue(o.getloc());
         auto r = hep::make_multi_channel_chkpt<T, E>(in);
         bool equal = r.results().empty() && same_bits(r.beta(), c.beta()) && same_bits(r.min_weight(), c.min_weight()) && eq_vec(c.channel_weights(), r.channel_weights());
         if (!equal) why = "fresh";
@@ -318,6 +330,7 @@ static void one_case(rng& g, char const* ename, E const& base, int kind, std::si
         user_flags(o, g);
         c.serialize(o);
         std::istringstream in(o.str());
+        in.imbue(o.getloc());
         auto r = hep::make_multi_channel_chkpt<T, E>(in);
         bool equal = r.results().size() == c.results().size() && same_bits(r.beta(), c.beta()) && same_bits(r.min_weight(), c.min_weight());
         if (!equal) why = "beta/min_weight";
@@ -351,6 +364,7 @@ static void params_family(rng& g, int count)
         std::ostringstream o;
         p.serialize(o);
         std::istringstream in(o.str());
+        in.imbue(o.getloc());
         hep::distribution_parameters<T> q(in);
         if (in.fail()) good = 0;
         if (q.name() != p.name() || q.bins_x() != p.bins_x() || q.bins_y() != p.bins_y() || !same_bits(p.x_min(), q.x_min()) || !same_bits(p.y_min(), q.y_min()) ||
